@@ -1778,4 +1778,171 @@ theorem c05_rejoin (s : State) (U : List Nat) (i H c : Nat)
           exact hq.2 j hj r k hk.2
       · rw [hpj j hji, ← hrj j hji] at hk; exact hq.2 j hj r k hk
 
+
+/-! ### the regenerated rules (go2lean `netrules`) are the ones the statements above were proved for -/
+
+/-- The round arithmetic and guards extracted from the Go source, against what the protocol description says: sign
+`head + 1` (re-sign the current round when it is already stored); a tick with `head + 1 < round` launches a sync up to
+the ticked round; an appended beacon behind the ticked round launches the catch-up goroutine; `Catchup` syncs up to the
+next round; partials above the next round or at/below the stored head are dropped; the cache keeps rounds
+`head < r ≤ head + limit + 1`; fewer than `thr` partials do not aggregate; only `head + 1` is appendable and a beacon
+further ahead triggers a sync; a sync request for a stored round is dropped. -/
+theorem tie_net_rules :
+    (∀ c h, Gen.bnpRound c h = if c = h then c else h + 1) ∧
+    (∀ l c, Gen.gapSync l c = decide (l + 1 < c)) ∧
+    (∀ b c, Gen.catchupLaunch b c = decide (b < c)) ∧
+    Gen.catchupSyncAhead = 1 ∧
+    (∀ p nx, Gen.ppbFuture p nx = decide (nx < p)) ∧
+    (∀ p l, Gen.ppbPast p l = decide (p ≤ l)) ∧
+    (∀ p l, Gen.aggInWindow p l = (decide (l < p) && decide (p ≤ l + Gen.partialCacheStoreLimit + 1))) ∧
+    (∀ len thr, Gen.aggNotEnough len thr = decide (len < thr)) ∧
+    (∀ l r, Gen.tryAppendRefuse l r = decide (l + 1 ≠ r)) ∧
+    (∀ l r, Gen.shouldSync l r = decide (l + 1 < r)) ∧
+    (∀ u l, Gen.syncFilled u l = (decide (0 < u) && decide (u ≤ l))) ∧
+    Gen.partialCacheStoreLimit = 3 ∧
+    Gen.aggOrder = ["cache.Append(partial.p)", "c.crypto.ThresholdScheme.Recover(", "c.crypto.ThresholdScheme.VerifyRecovered(",
+      "cache.FlushRounds(partial.p.GetRound())", "c.tryAppend(ctx,lastBeacon,newBeacon)", "c.shouldSync(lastBeacon,newBeacon)",
+      "c.syncm.SendSyncRequest(ctx,newBeacon.Round,peers)"] ∧
+    Gen.syncFromNext = true := by
+  refine ⟨?_, ?_, ?_, rfl, ?_, ?_, ?_, ?_, ?_, ?_, ?_, rfl, rfl, rfl⟩
+  · intro c h; simp [Gen.bnpRound]
+  · intro l c; rfl
+  · intro b c; rfl
+  · intro p nx; rfl
+  · intro p l; rfl
+  · intro p l; rfl
+  · intro len thr; rfl
+  · intro l r; rfl
+  · intro l r; rfl
+  · intro u l; rfl
+
+/-! ### non-vacuity: concrete small networks -/
+
+/-- three nodes, threshold two, before genesis -/
+def ex3 : State := State.init 3 2
+
+/-- three nodes at round 0 whose clocks show round 3 (the chain halted for three rounds) -/
+def exBehind : State :=
+  { n := 3, thr := 2, node := fun _ => { head := 0, clock := 3 }, conn := fun _ _ => true, msgs := [] }
+
+/-- node 0 is two rounds ahead of nodes 1 and 2 (it was on the majority side of a partition) -/
+def exUneven : State :=
+  { n := 3, thr := 2, node := fun k => if k = 0 then { head := 2, clock := 3 } else { head := 0, clock := 3 },
+    conn := fun _ _ => true, msgs := [] }
+
+/-- node 2 is down for good, node 1 is down and one round behind node 0 -/
+def exRejoin : State :=
+  { n := 3, thr := 2,
+    node := fun k => if k = 0 then { head := 2, clock := 3 } else if k = 1 then { up := false, head := 1, clock := 3 }
+                     else { up := false, head := 0, clock := 3 },
+    conn := fun _ _ => true, msgs := [] }
+
+private theorem mem3 {k : Nat} (h : k < 3) : k ∈ [0, 1, 2] := by
+  have : k = 0 ∨ k = 1 ∨ k = 2 := by omega
+  rcases this with h | h | h <;> simp [h]
+
+private theorem side_all (s : State) (hn : s.n = 3) (hu : ∀ k, (s.node k).up = true) (hc : ∀ i j, s.conn i j = true) :
+    Side s [0, 1, 2] :=
+  ⟨by decide, fun i hi => by rw [hn]; simp at hi; omega, fun i _ => hu i, fun i _ j _ => hc i j,
+   fun _ _ k hk _ _ => mem3 (hn ▸ hk)⟩
+
+private theorem quiet_clean (s : State) (U : List Nat) (h : Nat) (hm : s.msgs = []) (hc : ∀ j r k, (s.node j).held r k = false) :
+    Quiet s U h := by
+  unfold Quiet
+  refine ⟨fun m hmem _ _ => ?_, fun j _ r k hk => ?_⟩
+  · rw [hm] at hmem; cases hmem
+  · rw [hc j r k] at hk; cases hk
+
+example : ∀ j ∈ [0, 1, 2], 0 + 1 ≤ (ex3.fairTick.node j).head :=
+  c05_step_progress ex3 [0, 1, 2] 0 1 (side_all ex3 rfl (fun _ => rfl) (fun _ _ => rfl)) (by decide)
+    (fun _ _ => rfl) (fun _ _ => rfl) (by decide) (quiet_clean ex3 _ 0 rfl (fun _ _ _ => rfl))
+
+example : (ex3.fairTick.node 0).head = 1 ∧ (ex3.fairTick.node 1).head = 1 ∧ (ex3.fairTick.node 2).head = 1 := by decide
+
+private theorem exUneven_node (k : Nat) : (exUneven.node k).up = true ∧ (exUneven.node k).clock = 3 := by
+  by_cases h : k = 0 <;> simp [exUneven, h]
+
+example : ∀ j ∈ [0, 1, 2], 2 ≤ (exUneven.fairTick.node j).head :=
+  c05_level exUneven [0, 1, 2] 2 4 (side_all exUneven rfl (fun k => (exUneven_node k).1) (fun _ _ => rfl))
+    (fun i _ => by rw [(exUneven_node i).2]) ⟨0, by simp, rfl⟩ (by decide)
+
+/-- levelling is not vacuous: nodes 1 and 2 really move, by the sync rule, in that fair round -/
+example : (exUneven.node 1).head = 0 ∧ 2 ≤ (exUneven.fairTick.node 1).head := by decide
+
+example : ∀ j ∈ [0, 1, 2], ((exBehind.fairRound (4 - 0 - 1)).node j).head = 4 :=
+  c05_catchup exBehind [0, 1, 2] 0 4 (by decide) (by decide)
+    { side := side_all exBehind rfl (fun _ => rfl) (fun _ _ => rfl)
+      head := fun _ _ => rfl
+      clock := fun _ _ => rfl
+      pend := fun _ _ => rfl
+      stale := fun j _ r k hk => by exact absurd hk (by simp [exBehind])
+      low := Or.inl (fun _ _ _ _ => rfl)
+      msgs := rfl }
+
+/-- one round per sub-round, none skipped: 1 after the tick sub-round, then 2, 3, 4 -/
+example : (exBehind.fairTick.node 0).head = 1 ∧ ((exBehind.fairRound 1).node 0).head = 2 ∧
+    ((exBehind.fairRound 2).node 0).head = 3 ∧ ((exBehind.fairRound 3).node 0).head = 4 ∧
+    ((exBehind.fairRound 4).node 0).head = 4 := by decide
+
+private theorem side_rejoin : Side (exRejoin.restart 1) [0, 1] := by
+  refine ⟨by decide, ?_, ?_, fun _ _ _ _ => rfl, ?_⟩
+  · intro i hi; simp at hi; show i < 3; omega
+  · intro i hi; simp at hi; rcases hi with h | h <;> subst h <;> decide
+  · intro _ _ k hk hu _
+    have hk3 : k < 3 := hk
+    have : k = 0 ∨ k = 1 ∨ k = 2 := by omega
+    rcases this with h | h | h
+    · simp [h]
+    · simp [h]
+    · subst h; exact absurd hu (by decide)
+
+example : (((exRejoin.restart 1).pull 1).node 1).head = 2 ∧
+    ∀ j ∈ [0, 1], 2 + 1 ≤ ((((exRejoin.restart 1).pull 1).fairTick).node j).head := by
+  apply c05_rejoin exRejoin [0, 1] 1 2 4 (by simp) (by decide) side_rejoin (by decide) ⟨0, by simp, by decide⟩
+  · intro j hj hne
+    simp at hj
+    rcases hj with h | h
+    · subst h; rfl
+    · exact absurd h hne
+  · decide
+  · intro j hj
+    simp at hj
+    rcases hj with h | h <;> subst h <;> rfl
+  · decide
+  · unfold Quiet
+    refine ⟨fun m hm _ _ => (by cases hm), ?_⟩
+    intro j hj r k hk
+    simp at hj
+    rcases hj with h | h <;> subst h
+    · exact absurd hk (by simp [State.restart, exRejoin, setNode_node])
+    · exact absurd hk (by simp [State.restart, exRejoin])
+
+/-- the partial of the rejoined node is needed: as long as node 1 stays down, node 0 alone (fewer than thr = 2 nodes)
+never produces round 3, whatever the schedule; with node 1 back, round 3 is produced in the next fair round -/
+theorem c05_rejoin_needed (evs : List Ev) (h : ∀ e ∈ evs, ∀ i, e ≠ .restart i) :
+    (∀ i, ((exRejoin.run evs).node i).head ≤ 2) ∧
+    ((((exRejoin.restart 1).pull 1).fairTick).node 0).head = 3 := by
+  refine ⟨(c05_below_threshold_no_progress [0] 2 evs exRejoin (by decide) ?_ h).2, by decide⟩
+  refine ⟨?_, ?_, fun m hm => by cases hm⟩
+  · intro i
+    refine ⟨?_, fun r k hk => ?_⟩
+    · by_cases h0 : i = 0
+      · simp [exRejoin, h0]
+      · by_cases h1 : i = 1 <;> simp [exRejoin, h0, h1]
+    · exfalso
+      by_cases h0 : i = 0
+      · simp [exRejoin, h0] at hk
+      · by_cases h1 : i = 1 <;> simp [exRejoin, h0, h1] at hk
+  · intro i hi hu
+    have hi3 : i < 3 := hi
+    have : i = 0 ∨ i = 1 ∨ i = 2 := by omega
+    rcases this with h | h | h
+    · simp [h]
+    · subst h; exact absurd hu (by decide)
+    · subst h; exact absurd hu (by decide)
+
+/-- c05_no_skip and c05_heads_monotone are not vacuous: a delivery that completes the threshold moves a head by one -/
+example : ((ex3.advance.tick 0).tick 1).msgs[2]? = some ⟨1, 0, 1⟩ ∧
+    ((((ex3.advance.tick 0).tick 1).apply (.deliver 2)).node 0).head = (((ex3.advance.tick 0).tick 1).node 0).head + 1 := by decide
+
 end Drand.Net
